@@ -32,6 +32,10 @@ struct UserLabel { // "user struct with operator== and a default constructor"
 };
 inline std::ostream &operator<<(std::ostream &o, const UserLabel &u) { return o << "{" << u.a << "," << u.s << "}"; }
 inline std::ostream &operator<<(std::ostream &o, const BaseGraph::NoLabel &) { return o << "-"; }
+struct EmptyLabel { // a user label class without data members (not NoLabel)
+    bool operator==(const EmptyLabel &) const { return true; }
+};
+inline std::ostream &operator<<(std::ostream &o, const EmptyLabel &) { return o << "e"; }
 
 // Label alphabet: index 0 is the default-constructed label, 1 and 2 are two distinct other values.
 template <class L> struct LabelAlpha;
@@ -39,28 +43,46 @@ using i64 = long long;
 using u64 = unsigned long long;
 using u8 = unsigned char;
 using i8 = signed char;
-#define VERIF_LABEL_ALPHA(T, A, B)                                                                           \
+// alphaVariant() == 1 selects "unusual" values (extremes, long strings beyond the small-string buffer, control characters).
+inline int &alphaVariant() { static int v = 0; return v; }
+#define VERIF_LABEL_ALPHA(T, A, B, A2, B2)                                                                   \
     template <> struct LabelAlpha<T> {                                                                       \
-        static T value(long i) { return i == 0 ? T{} : (i == 1 ? static_cast<T>(A) : static_cast<T>(B)); }                             \
+        static T value(long i) {                                                                             \
+            if (i == 0) return T{};                                                                          \
+            if (alphaVariant() == 0) return i == 1 ? static_cast<T>(A) : static_cast<T>(B);                  \
+            return i == 1 ? static_cast<T>(A2) : static_cast<T>(B2);                                         \
+        }                                                                                                    \
         static constexpr int count = 3;                                                                      \
     };
-VERIF_LABEL_ALPHA(int, 7, -3)
-VERIF_LABEL_ALPHA(unsigned, 5u, 4000000000u)
-VERIF_LABEL_ALPHA(double, 1.5, -2.25)
-VERIF_LABEL_ALPHA(float, 1.5f, -2.25f)
-VERIF_LABEL_ALPHA(char, 'x', 'y')
-VERIF_LABEL_ALPHA(i64, 0x0102030405060708LL, -2LL)
-VERIF_LABEL_ALPHA(u64, 0x0102030405060708ULL, 0xfffefdfcfbfaf9f8ULL)
-VERIF_LABEL_ALPHA(short, 0x0102, -2)
-VERIF_LABEL_ALPHA(u8, 0x7f, 0xfe)
-VERIF_LABEL_ALPHA(i8, 0x7f, -2)
+VERIF_LABEL_ALPHA(int, 7, -3, INT_MAX, INT_MIN)
+VERIF_LABEL_ALPHA(unsigned, 5u, 4000000000u, UINT_MAX, 2147483648u)
+VERIF_LABEL_ALPHA(double, 1.5, -2.25, 1.7976931348623157e308, -4.9406564584124654e-324)
+VERIF_LABEL_ALPHA(float, 1.5f, -2.25f, 3.4028234e38f, -1.4e-45f)
+VERIF_LABEL_ALPHA(char, 'x', 'y', '\n', '\xff')
+VERIF_LABEL_ALPHA(i64, 0x0102030405060708LL, -2LL, LLONG_MAX, LLONG_MIN)
+VERIF_LABEL_ALPHA(u64, 0x0102030405060708ULL, 0xfffefdfcfbfaf9f8ULL, ULLONG_MAX, 0x8000000000000000ULL)
+VERIF_LABEL_ALPHA(short, 0x0102, -2, SHRT_MAX, SHRT_MIN)
+VERIF_LABEL_ALPHA(u8, 0x7f, 0xfe, 0xff, 0x80)
+VERIF_LABEL_ALPHA(i8, 0x7f, -2, -128, 1)
 template <> struct LabelAlpha<std::string> {
-    static std::string value(long i) { return i == 0 ? "" : (i == 1 ? "a" : "b c"); }
+    static std::string value(long i) {
+        if (i == 0) return "";
+        if (alphaVariant() == 0) return i == 1 ? "a" : "b c";
+        return i == 1 ? "abcdefghijklmnopqrstuvwxyz0123456789ABCDEFGH" : std::string("\xc3\xbc\t\"\\#\x01 end");
+    }
     static constexpr int count = 3;
 };
 template <> struct LabelAlpha<UserLabel> {
-    static UserLabel value(long i) { return i == 0 ? UserLabel() : (i == 1 ? UserLabel(1, "p") : UserLabel(2, "q")); }
+    static UserLabel value(long i) {
+        if (i == 0) return UserLabel();
+        if (alphaVariant() == 0) return i == 1 ? UserLabel(1, "p") : UserLabel(2, "q");
+        return i == 1 ? UserLabel(INT_MIN, "a string that does not fit the small-string buffer") : UserLabel(0, "\n");
+    }
     static constexpr int count = 3;
+};
+template <> struct LabelAlpha<EmptyLabel> {
+    static EmptyLabel value(long) { return {}; }
+    static constexpr int count = 1;
 };
 template <> struct LabelAlpha<BaseGraph::NoLabel> {
     static BaseGraph::NoLabel value(long) { return {}; }
@@ -259,7 +281,7 @@ template <class G> std::string opText(const Op &op) {
         o << (T::fam == MULTI ? "addMultiedge(" : "addEdge(") << op.i << "," << op.j << "," << val() << ",force=" << (op.force ? "true" : "false") << ")";
         break;
     case ADD_DEFAULT: o << "addEdge(" << op.i << "," << op.j << ",force=" << (op.force ? "true" : "false") << ")"; break;
-    case ADD_RECIP: o << "addReciprocalEdge(" << op.i << "," << op.j << "," << val() << ",force=" << (op.force ? "true" : "false") << ")"; break;
+    case ADD_RECIP: o << (T::fam == MULTI && op.v != 1 ? "addReciprocalMultiedge(" : "addReciprocalEdge(") << op.i << "," << op.j << "," << val() << ",force=" << (op.force ? "true" : "false") << ")"; break;
     case REMOVE: o << "removeEdge(" << op.i << "," << op.j << ")"; break;
     case REMOVE_MULTI: o << "removeMultiedge(" << op.i << "," << op.j << "," << op.v << ")"; break;
     case SET_VALUE:
@@ -316,7 +338,10 @@ template <class G> Outcome applyReal(G &g, const Op &op) {
             break;
         case ADD_RECIP:
             if constexpr (T::fam == PLAIN && T::directed) g.addReciprocalEdge(op.i, op.j, LabelAlpha<L>::value(op.v), op.force);
-            else throw std::logic_error("ADD_RECIP only for LabeledDirectedGraph");
+            else if constexpr (T::fam == MULTI && T::directed) {
+                if (op.v == 1) g.addReciprocalEdge(op.i, op.j, op.force);
+                else g.addReciprocalMultiedge(op.i, op.j, (BaseGraph::EdgeMultiplicity)op.v, op.force);
+            } else throw std::logic_error("ADD_RECIP only for LabeledDirectedGraph / DirectedMultigraph");
             break;
         case REMOVE: g.removeEdge(op.i, op.j); break;
         case REMOVE_MULTI:
@@ -358,7 +383,7 @@ inline Outcome applyModel(Model &m, const Op &op, Family fam) {
     auto addOne = [&](unsigned i, unsigned j) {
         auto key = m.canon(i, j);
         auto it = m.e.find(key);
-        if (fam == MULTI && op.k == ADD && op.v == 0) return; // addMultiedge(...,0) is a no-op
+        if (fam == MULTI && (op.k == ADD || op.k == ADD_RECIP) && op.v == 0) return; // addMultiedge(...,0) is a no-op
         long v = (fam == MULTI && op.k == ADD_DEFAULT) ? 1 : (op.k == ADD_DEFAULT ? 0 : op.v);
         if (it == m.e.end()) {
             Ent en;
